@@ -4,7 +4,7 @@ import json, os, subprocess
 
 ROOT = os.path.dirname(os.path.dirname(os.path.abspath(__file__)))
 
-HOOK_COMMITS = ["6ee76f6", "7011089"]
+HOOK_COMMITS = ["6ee76f6", "7011089", "be0b96b", "b874fb5"]
 FIX_COMMITS = ["6e0caa7", "2840cea", "9555ff6", "6248959", "f561aed", "90dd435", "4d73456", "dda770d"]
 
 # id -> (technique, level text, level note, design ref)
